@@ -1,7 +1,7 @@
 (* C31 — the invariant tying the Processor model to the truth of the history, part 1: definitions, the
    contract keeps the truth well-formed, generic facts about handlers that map over all endpoints. *)
 From Coq Require Import List Arith Bool Permutation Lia.
-From Verif.C31 Require Import Model Spec Lemmas Views Groups GroupAdv Sync.
+From Verif.C31 Require Import Model Spec Lemmas Views Groups GroupAdv Sync ListedOnce.
 Import ListNotations.
 
 (* the truth is well-formed: endpoints list stored policies/profiles once, stored rules mention stored IP sets *)
@@ -28,7 +28,7 @@ Proof.
   - (* wep update *)
     apply andb_true_iff in V. destruct V as [V D2]. apply andb_true_iff in V. destruct V as [V D1].
     apply andb_true_iff in V. destruct V as [V1 V2]. rewrite forallb_forall in V1, V2.
-    apply negb_true_iff in D1, D2.
+    apply listed_once_nodup in D1. apply negb_true_iff in D2.
     split; [|split; assumption]. intros w0 e0 H. rewrite lookup_insert in H.
     destruct (Nat.eqb w0 w); [|apply W1 with w0; exact H]. inversion H; subst e0.
     split; [intros p Hp; apply present_true, V1, Hp|]. split; [intros p Hp; apply present_true, V2, Hp|]. split; assumption.
@@ -78,6 +78,53 @@ Proof.
     + eapply W2; eassumption.
     + exfalso. apply (X k r); [apply in_or_app; right; apply lookup_in; exact H|exact Ht].
     + eapply W3; eassumption.
+Qed.
+
+
+(* connection indices: below the join counter, one workload per index *)
+Definition WFC (T : truth) : Prop :=
+  (forall w j u, lookup w (t_conn T) = Some (j, u) -> j < t_njoins T) /\
+  (forall w w' j u u', lookup w (t_conn T) = Some (j, u) -> lookup w' (t_conn T) = Some (j, u') -> w = w').
+(* a channel index no workload is connected on *)
+Definition cfree (T : truth) (j : nat) : Prop :=
+  j < t_njoins T /\ forall w u, lookup w (t_conn T) <> Some (j, u).
+
+Lemma wfc_conn_init : WFC tinit.
+Proof. split; simpl; intros; discriminate. Qed.
+
+Lemma wfc_step : forall T o, WFC T -> WFC (tstep T o).
+Proof.
+  intros T o [W1 W2]. destruct o; cbn [tstep]; try (split; assumption).
+  - split; cbn [t_conn t_njoins].
+    + intros w0 j u H. rewrite lookup_insert in H. destruct (Nat.eqb w0 w); [inversion H; subst; lia|apply W1 in H; lia].
+    + intros w0 w' j u u' H H'. rewrite lookup_insert in H, H'.
+      destruct (Nat.eqb_spec w0 w) as [->|N], (Nat.eqb_spec w' w) as [->|N']; try reflexivity.
+      * inversion H; subst. apply W1 in H'. lia.
+      * inversion H'; subst. apply W1 in H. lia.
+      * eapply W2; eassumption.
+  - destruct (lookup w (t_conn T)) as [[j0 u0]|]; [destruct (Nat.eqb u0 uid)|]; try (split; assumption).
+    split; cbn [t_conn t_njoins].
+    + intros w0 j u H. rewrite lookup_remove in H. destruct (Nat.eqb w0 w); [discriminate|eapply W1; eassumption].
+    + intros w0 w' j u u' H H'. rewrite lookup_remove in H, H'.
+      destruct (Nat.eqb w0 w); [discriminate|]. destruct (Nat.eqb w' w); [discriminate|]. eapply W2; eassumption.
+  - split; cbn [t_conn t_njoins].
+    + intros w0 j u H. rewrite lookup_remove in H. destruct (Nat.eqb w0 w); [discriminate|eapply W1; eassumption].
+    + intros w0 w' j u u' H H'. rewrite lookup_remove in H, H'.
+      destruct (Nat.eqb w0 w); [discriminate|]. destruct (Nat.eqb w' w); [discriminate|]. eapply W2; eassumption.
+  - destruct (lookup s (t_ips T)); split; assumption.
+Qed.
+
+(* the index of a channel that is being closed is free afterwards *)
+Lemma cfree_archived : forall T w j u0 nj' (conn' : list (id * (nat * nat))) X,
+  WFC T -> lookup w (t_conn T) = Some (j, u0) -> t_njoins T <= nj' ->
+  (forall w', lookup w' conn' = if Nat.eqb w' w then X else lookup w' (t_conn T)) ->
+  (X = None \/ exists u, X = Some (t_njoins T, u)) ->
+  j < nj' /\ forall w' u, lookup w' conn' <> Some (j, u).
+Proof.
+  intros T w j u0 nj' conn' X [W1 W2] L LE HC HX. assert (J := W1 _ _ _ L). split; [lia|].
+  intros w' u H. rewrite HC in H. destruct (Nat.eqb_spec w' w) as [->|N].
+  - destruct HX as [->|[u1 ->]]; [discriminate|]. inversion H; subst. lia.
+  - apply N. eapply W2; eassumption.
 Qed.
 
 (* ---- map_eps ---- *)
